@@ -916,7 +916,22 @@ impl<'a> Gen<'a> {
                 } else if simple_scrut {
                     (self.gen_new(env, &sty, s[0], pure, in_rec), false)
                 } else {
-                    (self.gen_tm_rec(env, &sty, s[0], pure, in_rec), true)
+                    // sometimes an explicit destructor *chain* `t.d'.d` (no parentheses in between),
+                    // through an argument-free destructor that returns the scrutinee's own type
+                    let selfish: Vec<usize> = d
+                        .xtors
+                        .iter()
+                        .enumerate()
+                        .filter(|(_, y)| y.args.is_empty() && y.ret.as_ref().map(|r| r.subst(&d.params, &targs)) == Some(sty.clone()))
+                        .map(|(i, _)| i)
+                        .collect();
+                    if !selfish.is_empty() && self.c.prob(90) {
+                        let y = d.xtors[selfish[self.c.choose(selfish.len())]].clone();
+                        let inner = self.gen_tm_rec(env, &sty, s[0], pure, in_rec);
+                        (Tm::Dtor { scrut: Box::new(inner), name: y.name.clone(), tyargs: targs.clone(), args: vec![] }, true)
+                    } else {
+                        (self.gen_tm_rec(env, &sty, s[0], pure, in_rec), true)
+                    }
                 };
                 match self.gen_args(env, &x.args, &d.params, &targs, s[1], args_pure || pure) {
                     Some(args) => Tm::Dtor { scrut: Box::new(scrut), name: x.name.clone(), tyargs: targs, args },
